@@ -1,6 +1,426 @@
+//! C12 — a status-list host with a history of writes, served versions and verifiers that check credentials against
+//! the version they fetched.
+
+use super::Clock;
 use crate::core::batch::Params;
-pub const RULE: &str = "";
+use crate::core::ctx;
+use identity_core::common::Object;
+use identity_core::common::Url;
+use identity_core::convert::FromJson;
+use identity_credential::credential::Credential;
+use identity_credential::credential::Issuer;
+use identity_credential::revocation::status_list_2021::StatusList2021;
+use identity_credential::revocation::status_list_2021::StatusList2021Credential;
+use identity_credential::revocation::status_list_2021::StatusList2021CredentialBuilder;
+use identity_credential::revocation::status_list_2021::StatusList2021CredentialError;
+use identity_credential::revocation::status_list_2021::StatusPurpose;
+use identity_credential::validator::JwtCredentialValidatorUtils;
+use identity_credential::validator::JwtValidationError;
+use identity_credential::validator::StatusCheck;
+use std::collections::BTreeSet;
+
+pub const RULE: &str = "One run = a status-list host with 1-2 StatusList2021 credentials (revocation / suspension; minimum size, \
+  non-multiple-of-8 and larger sizes) and a history of 3-14 writes (set / clear through set_credential_status, update() and \
+  the raw list; sequentially allocated, hence adjacent, indices; out-of-range indices), every served version kept with its \
+  simulated time; verifiers fetch a (possibly stale) version and check credentials whose status entry points at a list, with \
+  matching and mismatching list id / purpose and all three status-check modes. Model: set of set indices + length per list \
+  per version. Non-trivial: at least one clear, refused clear or stale fetch; distinct = distinct hashes of the write history.";
+
 pub fn probes(_tier: &str) -> Vec<String> {
-  Vec::new()
+  [
+    "probe.set",
+    "probe.clear_suspension",
+    "probe.clear_revocation_refused",
+    "probe.out_of_range_refused",
+    "probe.adjacent_in_same_byte",
+    "probe.status.revoked",
+    "probe.status.suspended",
+    "probe.status.valid",
+    "probe.status.mismatch_rejected",
+    "probe.stale_version_fetched",
+    "probe.raw_list_ops",
+  ]
+  .iter()
+  .map(|s| (*s).to_owned())
+  .collect()
 }
-pub fn run(_params: &Params) {}
+
+struct ListModel {
+  url: String,
+  purpose: StatusPurpose,
+  len: usize,
+  set: BTreeSet<usize>,
+}
+
+struct Served {
+  json: String,
+  set: BTreeSet<usize>,
+}
+
+fn neighbourhood(i: usize, len: usize) -> Vec<usize> {
+  let base = (i / 8) * 8;
+  let lo = base.saturating_sub(8);
+  let hi = (base + 16).min(len);
+  (lo..hi).collect()
+}
+
+fn check_list(ctxt: &str, cred: &StatusList2021Credential, m: &ListModel, around: &[usize]) {
+  use identity_credential::revocation::status_list_2021::CredentialStatus;
+  let mut qs: BTreeSet<usize> = BTreeSet::new();
+  for a in around {
+    qs.extend(neighbourhood(*a, m.len));
+  }
+  let members: Vec<usize> = m.set.iter().copied().collect();
+  for _ in 0..6.min(members.len()) {
+    qs.extend(neighbourhood(members[ctx::choose(members.len())], m.len));
+  }
+  for _ in 0..4 {
+    qs.insert(ctx::choose(m.len));
+  }
+  qs.insert(m.len - 1);
+  for q in qs {
+    let want_set = m.set.contains(&q);
+    let got = cred.entry(q);
+    let ok = match (&got, want_set, m.purpose) {
+      (Ok(CredentialStatus::Valid), false, _) => true,
+      (Ok(CredentialStatus::Revoked), true, StatusPurpose::Revocation) => true,
+      (Ok(CredentialStatus::Suspended), true, StatusPurpose::Suspension) => true,
+      _ => false,
+    };
+    if !ok {
+      ctx::violation(
+        "C12",
+        "C12.independent_bits",
+        format!("{ctxt}/entry-differs-from-model/{}", if want_set { "lost" } else { "spurious" }),
+        format!("entry {q} of {} reads {got:?}, model says set={want_set} (offset {} in its byte)", m.url, q % 8),
+      );
+      return;
+    }
+  }
+  // out of range reads are errors
+  match ctx::catch(|| cred.entry(m.len).is_ok() || cred.entry(m.len + 7).is_ok()) {
+    Ok(false) => {}
+    Ok(true) => ctx::violation("C12", "C12.out_of_range_is_error", format!("{ctxt}/read-beyond-length"), "reading an entry at or beyond the list length succeeded"),
+    Err(p) => ctx::violation(
+      "C12",
+      "C12.out_of_range_is_error",
+      "read-beyond-length/panic",
+      format!("reading entry {} or {} of a {}-entry list panicked instead of returning an error: {p}", m.len, m.len + 7, m.len),
+    ),
+  }
+}
+
+pub fn run(_params: &Params) {
+  let mut clock = Clock { now: ctx::BASE_TIME };
+  clock.enter(0);
+  let n_lists = 1 + ctx::choose(2);
+  let mut creds: Vec<StatusList2021Credential> = Vec::new();
+  let mut models: Vec<ListModel> = Vec::new();
+  let mut served: Vec<Vec<Served>> = Vec::new();
+  for i in 0..n_lists {
+    let purpose = if (i + ctx::choose(2)) % 2 == 0 {
+      StatusPurpose::Revocation
+    } else {
+      StatusPurpose::Suspension
+    };
+    let entries = match ctx::choose(4) {
+      0 | 1 => 131_072,
+      2 => 131_072 + 1 + ctx::choose(7),
+      _ => 131_072 + 8 * (1 + ctx::choose(2000)),
+    };
+    let Ok(list) = StatusList2021::new(entries) else { return };
+    let len = list.len();
+    let url = format!("https://status.example/lists/{i}");
+    let built = StatusList2021CredentialBuilder::new(list)
+      .purpose(purpose)
+      .subject_id(Url::parse(if ctx::choose(2) == 0 { format!("{url}#list") } else { url.clone() }).unwrap())
+      .issuer(Issuer::Url(Url::parse("did:sim:host").unwrap()))
+      .build();
+    let Ok(c) = built else { return };
+    creds.push(c);
+    models.push(ListModel {
+      url,
+      purpose,
+      len,
+      set: BTreeSet::new(),
+    });
+    served.push(Vec::new());
+  }
+  // too-small lists are refused
+  if StatusList2021::new(131_071 - ctx::choose(1000)).is_ok() {
+    ctx::violation("C12", "C12.out_of_range_is_error", "size/below-minimum-accepted", "a list below the minimum size was created");
+  }
+  let mut next_index: Vec<usize> = models.iter().map(|_| ctx::choose(64)).collect();
+  let mut issued: Vec<(Credential, usize, usize)> = Vec::new(); // (credential with status, list, index)
+  let writes = 3 + ctx::choose(12);
+  let mut nontrivial = false;
+  for step in 0..writes {
+    clock.advance(900);
+    clock.enter(0);
+    let li = ctx::choose(models.len());
+    // index: sequential allocation (adjacent), an index used before, a random one, or out of range
+    let kind = ctx::weighted(&[5, 4, 2, 1]);
+    let index = match kind {
+      0 => {
+        let v = next_index[li];
+        next_index[li] += 1;
+        v
+      }
+      1 => {
+        let used: Vec<usize> = (0..next_index[li]).collect();
+        if used.is_empty() {
+          0
+        } else {
+          used[ctx::choose(used.len())]
+        }
+      }
+      2 => ctx::choose(models[li].len),
+      _ => models[li].len + ctx::choose(9),
+    };
+    let value = ctx::choose(3) != 0;
+    let api = ctx::choose(3);
+    let before_json = serde_json::to_string(&creds[li]).unwrap();
+    let m = &mut models[li];
+    let m_len = m.len;
+    let in_range = index < m.len;
+    let clearing_revocation = m.purpose == StatusPurpose::Revocation && !value && in_range && m.set.contains(&index);
+    if in_range && m.set.iter().any(|s| s / 8 == index / 8 && *s != index) {
+      ctx::stat("probe.adjacent_in_same_byte");
+    }
+    let write = ctx::catch(|| -> Result<(), StatusList2021CredentialError> { match api {
+      0 => {
+        let mut subject_cred: Credential = Credential::<Object>::from_json_value(serde_json::json!({
+          "@context": "https://www.w3.org/2018/credentials/v1",
+          "type": ["VerifiableCredential"],
+          "issuer": "did:sim:host",
+          "issuanceDate": "2023-01-01T00:00:00Z",
+          "credentialSubject": {"id": format!("did:sim:subject{step}")}
+        }))
+        .expect("credential");
+        let r = creds[li].set_credential_status(&mut subject_cred, index, value);
+        if r.is_ok() {
+          issued.push((subject_cred, li, index));
+        }
+        r.map(|_| ())
+      }
+      1 => creds[li].update(|l| l.set_entry(index, value)),
+      _ => creds[li].update(|l| {
+        l.set_entry(index, value)?;
+        Ok(())
+      }),
+    }});
+    let result = match write {
+      Ok(r) => r,
+      Err(p) => {
+        ctx::violation(
+          "C12",
+          "C12.out_of_range_is_error",
+          if in_range { "write/panic" } else { "write-beyond-length/panic" },
+          format!("set({index},{value}) on a {}-entry list panicked: {p}", m_len),
+        );
+        return;
+      }
+    };
+    ctx::sched("w", (index as u64) << 2 | (value as u64) << 1 | api as u64 & 1);
+    ctx::trace(format!(
+      "step {step}: list{li}({:?},len {}) set({index},{value}) via api{api} -> {}",
+      m.purpose,
+      m.len,
+      match &result {
+        Ok(()) => "Ok".to_owned(),
+        Err(e) => format!("Err({})", <&'static str>::from(e)),
+      }
+    ));
+    match &result {
+      Ok(()) => {
+        if !in_range {
+          ctx::violation("C12", "C12.out_of_range_is_error", "write/beyond-length-accepted", format!("write to index {index} of a {}-entry list succeeded", m.len));
+        }
+        if clearing_revocation {
+          ctx::violation(
+            "C12",
+            "C12.revocation_is_one_way",
+            "clear-of-revoked-entry-accepted",
+            format!("revocation entry {index} was cleared through the status-list credential"),
+          );
+        }
+        if value {
+          m.set.insert(index);
+          ctx::stat("probe.set");
+        } else {
+          if m.set.remove(&index) {
+            nontrivial = true;
+          }
+          if m.purpose == StatusPurpose::Suspension {
+            ctx::stat("probe.clear_suspension");
+          }
+        }
+      }
+      Err(e) => {
+        let expected_refusal = !in_range || clearing_revocation;
+        if !in_range {
+          ctx::stat("probe.out_of_range_refused");
+        }
+        if clearing_revocation {
+          ctx::stat("probe.clear_revocation_refused");
+          nontrivial = true;
+        }
+        if !expected_refusal {
+          ctx::violation(
+            "C12",
+            "C12.independent_bits",
+            format!("write/legal-write-refused/{}", <&'static str>::from(e)),
+            format!("set({index},{value}) on a {}-entry {:?} list failed: {e}", m.len, m.purpose),
+          );
+        }
+        // a refused write leaves the list unchanged
+        if serde_json::to_string(&creds[li]).unwrap() != before_json {
+          ctx::violation("C12", "C12.independent_bits", "write/refused-but-changed", "a refused write changed the status list credential");
+        }
+      }
+    }
+    // I12.1 read-back of the touched byte and its neighbours; encode/decode identity of the served form
+    check_list("after-write", &creds[li], &models[li], &[index.min(models[li].len - 1)]);
+    let json = serde_json::to_string(&creds[li]).unwrap();
+    match StatusList2021Credential::from_json(&json) {
+      Ok(back) => {
+        if back != creds[li] {
+          ctx::violation("C12", "C12.encoded_form_round_trip", "served-json/differs", "served credential JSON deserialises to a different credential");
+        }
+        check_list("served-version", &back, &models[li], &[index.min(models[li].len - 1)]);
+      }
+      Err(e) => ctx::violation("C12", "C12.encoded_form_round_trip", "served-json/rejected", format!("own served JSON rejected: {e}")),
+    }
+    // I12.2 monotone revocation over the host's served history
+    if models[li].purpose == StatusPurpose::Revocation {
+      if let Some(prev) = served[li].last() {
+        if let Some(lost) = prev.set.iter().find(|i| !models[li].set.contains(i)) {
+          ctx::violation(
+            "C12",
+            "C12.revocation_is_one_way",
+            "served-history/revoked-entry-cleared",
+            format!("entry {lost} was revoked in the previous served version and is clear now (model)"),
+          );
+        }
+      }
+    }
+    served[li].push(Served {
+      json,
+      set: models[li].set.clone(),
+    });
+
+    // ---- a verifier fetches a version (possibly stale) and checks a credential ----
+    if !issued.is_empty() && ctx::choose(2) == 0 {
+      let (cred, cl, cindex) = issued[ctx::choose(issued.len())].clone();
+      let versions = served[cl].len();
+      if versions == 0 {
+        continue;
+      }
+      let lag = if versions > 1 && ctx::chance(3, 8) {
+        ctx::stat("probe.stale_version_fetched");
+        nontrivial = true;
+        1 + ctx::choose(versions - 1)
+      } else {
+        0
+      };
+      // mismatching list (another list's credential) one time in five
+      let use_other = models.len() > 1 && ctx::choose(5) == 0;
+      let fetch_from = if use_other { (cl + 1) % models.len() } else { cl };
+      let fv = served[fetch_from].len().saturating_sub(1 + lag.min(served[fetch_from].len().saturating_sub(1)));
+      let Some(sv) = served[fetch_from].get(fv) else { continue };
+      let Ok(list_cred) = StatusList2021Credential::from_json(&sv.json) else { continue };
+      let mode = [StatusCheck::Strict, StatusCheck::SkipUnsupported, StatusCheck::SkipAll][ctx::choose(3)];
+      let r = ctx::catch(|| JwtCredentialValidatorUtils::check_status_with_status_list_2021(&cred, &list_cred, mode));
+      let r = match r {
+        Ok(r) => r,
+        Err(p) => {
+          ctx::violation("C12", "C12.reported_status", "check/panic", format!("check_status_with_status_list_2021 panicked: {p}"));
+          continue;
+        }
+      };
+      let is_set = sv.set.contains(&cindex);
+      let matches = !use_other; // same list => same id and purpose
+      let name = match &r {
+        Ok(()) => "Ok",
+        Err(e) => <&'static str>::from(e),
+      };
+      let want: &str = if mode == StatusCheck::SkipAll {
+        "Ok"
+      } else if !matches {
+        "InvalidStatus"
+      } else if is_set && models[cl].purpose == StatusPurpose::Revocation {
+        "Revoked"
+      } else if is_set {
+        "Suspended"
+      } else {
+        "Ok"
+      };
+      match want {
+        "Revoked" => ctx::stat("probe.status.revoked"),
+        "Suspended" => ctx::stat("probe.status.suspended"),
+        "InvalidStatus" => ctx::stat("probe.status.mismatch_rejected"),
+        _ => ctx::stat("probe.status.valid"),
+      }
+      if name != want {
+        ctx::violation(
+          "C12",
+          "C12.reported_status",
+          format!("check/want={want}/got={name}"),
+          format!(
+            "credential entry {cindex} of list{cl} checked against version {} of list{fetch_from} (set={is_set}, mode {mode:?}): got {name}, expected {want}",
+            fv + 1
+          ),
+        );
+      }
+      let _ = matches!(r, Err(JwtValidationError::Revoked));
+    }
+  }
+
+  // ---- the raw list as a bit vector (no credential around it) ----
+  if ctx::choose(3) == 0 {
+    ctx::stat("probe.raw_list_ops");
+    let entries = 131_072 + ctx::choose(9);
+    if let Ok(mut list) = StatusList2021::new(entries) {
+      let len = list.len();
+      let mut model: BTreeSet<usize> = BTreeSet::new();
+      let base = ctx::choose(len - 32);
+      for _ in 0..(4 + ctx::choose(12)) {
+        let i = base + ctx::choose(24);
+        let v = ctx::choose(2) == 0;
+        if list.set(i, v).is_err() {
+          ctx::violation("C12", "C12.independent_bits", "raw/in-range-write-refused", format!("raw set({i},{v}) failed"));
+        }
+        if v {
+          model.insert(i);
+        } else {
+          model.remove(&i);
+          nontrivial = true;
+        }
+        for q in base.saturating_sub(8)..(base + 40).min(len) {
+          if list.get(q).ok() != Some(model.contains(&q)) {
+            ctx::violation(
+              "C12",
+              "C12.independent_bits",
+              format!("raw/entry-differs-from-model/{}", if model.contains(&q) { "lost" } else { "spurious" }),
+              format!("after raw set({i},{v}): entry {q} reads {:?}, model {}", list.get(q), model.contains(&q)),
+            );
+            return;
+          }
+        }
+      }
+      match ctx::catch(|| list.set(len, true).is_ok() || list.get(len).is_ok()) {
+        Ok(false) => {}
+        Ok(true) => ctx::violation("C12", "C12.out_of_range_is_error", "raw/beyond-length-accepted", "raw access at the list length succeeded"),
+        Err(p) => ctx::violation("C12", "C12.out_of_range_is_error", "read-beyond-length/panic", format!("raw access at index {len} (= length) panicked: {p}")),
+      }
+      let enc = list.clone().into_encoded_str();
+      match StatusList2021::try_from_encoded_str(&enc) {
+        Ok(back) if back == list => {}
+        _ => ctx::violation("C12", "C12.encoded_form_round_trip", "raw/encode-decode-differs", "into_encoded_str -> try_from_encoded_str is not the identity"),
+      }
+    }
+  }
+  if nontrivial {
+    ctx::mark_nontrivial();
+  }
+}
